@@ -5,8 +5,11 @@ model plus the four places where engine/seminaivebottomup.go looks at the limit)
 Correspondence: diverging generators (arithmetic counters, list and pair growth, fan-out,
 non-linear and mutual recursion, cartesian products, two strata, let-transforms), finite
 programs with limits just below / at / above the number of facts they create, random
-stratifiable programs of checks/datalog_common.py, all under WithCreatedFactLimit; every
-Go run under a wall-clock guard. Compared per run: ok / error class and the complete store
+stratifiable programs of checks/datalog_common.py, all under WithCreatedFactLimit, each limited
+run without and with a configured temporal store (WithTemporalStore + WithEvaluationTime: a
+configuration dimension of the correspondence, the model is the same); every Go run under a
+wall-clock guard. Programs with temporal predicates (alone / mixed with ordinary recursion)
+are judged by property-level oracles on Go's outputs (runner c17_mixed). Compared per run: ok / error class and the complete store
 at return (also after an error). The property verdicts are decided on Go's output:
  (a) nil error but store != least model, (b) no return within the guard,
  (c) store at return larger than the proven bound.
@@ -959,11 +962,18 @@ META = {
             "generators (arithmetic, list/pair growth, fan-out, non-linear, mutual, two strata), cartesian products and "
             "finite programs with limits just below/at/above the number of facts they create are evaluated under a "
             "wall-clock guard and compared with the model inside Coq on error/ok class and on the complete store at "
-            "return; thorough sweeps every limit 1..30 on 30 fixed programs, 4 store kinds, both rule-order modes. "
+            "return, every limited run both without and with a configured temporal store (WithTemporalStore + "
+            "WithEvaluationTime, as the interpreter always configures one; same model, same verdicts); thorough sweeps "
+            "every limit 1..30 on 30 fixed programs, 4 store kinds, both rule-order modes, both temporal-store modes. "
+            "Programs with temporal predicates - temporal recursion alone and mixed with ordinary recursion in one "
+            "program - run under the same guard and are judged by property-level oracles on Go's outputs. "
             "Verdicts are decided on Go's output: nil error with a store that is not the least model, no return within "
             "the guard, or a store above the proven bound.",
     "note": "Trusted: Coq kernel + vm_compute; the hand-written limit model is tied to the Go code only by differential "
             "evaluation (sampled; exhaustive over limits 1..30 on the fixed programs). 'Least model' rests on C01's theorem. "
-            "Temporal programs are covered by one probe (N1 + N15) only; do-transforms, external and merge predicates and "
-            "over-estimating stores (merged, teeing) are outside.",
+            "The temporal store is not modelled: for non-temporal programs it is a configuration dimension judged by the "
+            "same model; programs with temporal predicates are judged by oracles only (guard; nil error on a program "
+            "diverging by construction; nil error with stores different from the engine's own unlimited run; store sizes "
+            "above |E| + (rules + 2) * L, for the temporal store an oracle bound, not a theorem). Do-transforms, external "
+            "and merge predicates and over-estimating stores (merged, teeing) are outside.",
 }
